@@ -250,15 +250,19 @@ def get_model(
         assoc = getattr(lang_classes_factory.ns, assoc_name)()
         setattr(assoc, left_field, [left_asset])
         setattr(assoc, right_field, [right_asset])
-        if not (instance_model.association_exists_between_assets(
+        # Each association is found once from either end. Look for it with the
+        # assets in the order of the fields they belong to: another
+        # association of the same type may link them the other way around.
+        first_field, _ = instance_model.get_association_field_names(assoc)
+        if first_field == left_field:
+            first_asset, second_asset = left_asset, right_asset
+        else:
+            first_asset, second_asset = right_asset, left_asset
+        if not instance_model.association_exists_between_assets(
             assoc_name,
-            left_asset,
-            right_asset
-        ) or instance_model.association_exists_between_assets(
-            assoc_name,
-            right_asset,
-            left_asset
-        )):
+            first_asset,
+            second_asset
+        ):
             instance_model.add_association(assoc)
 
     for rel, signature in unmatched_rels.items():
